@@ -732,6 +732,7 @@ func (r *Replica) Restore(ctx context.Context, opt RestoreOptions) (err error) {
 	r.Logger().Debug("compacting into database", "path", tmpOutputPath, "n", len(rdrs))
 	defer func() { _ = os.Remove(tmpOutputPath) }()
 
+	verifhook.FS("create", tmpOutputPath, "")
 	f, err := os.Create(tmpOutputPath)
 	if err != nil {
 		return fmt.Errorf("create temp database path: %w", err)
@@ -750,11 +751,13 @@ func (r *Replica) Restore(ctx context.Context, opt RestoreOptions) (err error) {
 		_ = pw.CloseWithError(c.Compact(ctx))
 	}()
 
+	verifhook.FS("write", tmpOutputPath, "")
 	dec := ltx.NewDecoder(pr)
 	if err := dec.DecodeDatabaseTo(f); err != nil {
 		return fmt.Errorf("decode database: %w", err)
 	}
 
+	verifhook.FS("fsync", tmpOutputPath, "")
 	if err := f.Sync(); err != nil {
 		return err
 	} else if err := f.Close(); err != nil {
@@ -763,6 +766,7 @@ func (r *Replica) Restore(ctx context.Context, opt RestoreOptions) (err error) {
 
 	// Copy file to final location.
 	r.Logger().Debug("renaming database from temporary location")
+	verifhook.FS("rename", tmpOutputPath, opt.OutputPath)
 	if err := os.Rename(tmpOutputPath, opt.OutputPath); err != nil {
 		return err
 	}
@@ -773,6 +777,7 @@ func (r *Replica) Restore(ctx context.Context, opt RestoreOptions) (err error) {
 	if opt.IntegrityCheck != IntegrityCheckNone {
 		if err := checkIntegrity(ctx, opt.OutputPath, opt.IntegrityCheck); err != nil {
 			if ctx.Err() == nil {
+				verifhook.FS("remove", opt.OutputPath, "")
 				_ = os.Remove(opt.OutputPath)
 				_ = os.Remove(opt.OutputPath + "-shm")
 				_ = os.Remove(opt.OutputPath + "-wal")
@@ -980,16 +985,19 @@ func (r *Replica) applyLTXFile(ctx context.Context, f *os.File, info *ltx.FileIn
 		}
 
 		off := int64(phdr.Pgno-1) * int64(pageSize)
+		verifhook.FS("writeat", f.Name(), "")
 		if _, err := f.WriteAt(data, off); err != nil {
 			return fmt.Errorf("write page %d: %w", phdr.Pgno, err)
 		}
 	}
 
 	if hdr.Commit > 0 {
+		verifhook.FS("fsync", f.Name(), "")
 		if err := f.Sync(); err != nil {
 			return fmt.Errorf("sync before truncate: %w", err)
 		}
 		newSize := int64(hdr.Commit) * int64(pageSize)
+		verifhook.FS("truncate", f.Name(), "")
 		if err := f.Truncate(newSize); err != nil {
 			return fmt.Errorf("truncate: %w", err)
 		}
@@ -999,6 +1007,7 @@ func (r *Replica) applyLTXFile(ctx context.Context, f *os.File, info *ltx.FileIn
 		return fmt.Errorf("close decoder: %w", err)
 	}
 
+	verifhook.FS("fsync", f.Name(), "")
 	return f.Sync()
 }
 
@@ -1156,6 +1165,7 @@ func (r *Replica) RestoreV3(ctx context.Context, opt RestoreOptions) error {
 	}
 
 	// Rename to final path.
+	verifhook.FS("rename", tmpPath, opt.OutputPath)
 	if err := os.Rename(tmpPath, opt.OutputPath); err != nil {
 		return fmt.Errorf("rename to output path: %w", err)
 	}
@@ -1166,6 +1176,7 @@ func (r *Replica) RestoreV3(ctx context.Context, opt RestoreOptions) error {
 	if opt.IntegrityCheck != IntegrityCheckNone {
 		if err := checkIntegrity(ctx, opt.OutputPath, opt.IntegrityCheck); err != nil {
 			if ctx.Err() == nil {
+				verifhook.FS("remove", opt.OutputPath, "")
 				_ = os.Remove(opt.OutputPath)
 				_ = os.Remove(opt.OutputPath + "-shm")
 				_ = os.Remove(opt.OutputPath + "-wal")
@@ -1231,6 +1242,7 @@ func (r *Replica) downloadSnapshotV3(ctx context.Context, client ReplicaClientV3
 	}
 	defer func() { _ = rc.Close() }()
 
+	verifhook.FS("create", destPath, "")
 	f, err := os.Create(destPath)
 	if err != nil {
 		return err
@@ -1240,6 +1252,7 @@ func (r *Replica) downloadSnapshotV3(ctx context.Context, client ReplicaClientV3
 	if _, err := io.Copy(f, rc); err != nil {
 		return err
 	}
+	verifhook.FS("fsync", destPath, "")
 	return f.Sync()
 }
 
@@ -1289,6 +1302,7 @@ func (r *Replica) applyWALSegmentsV3(ctx context.Context, client ReplicaClientV3
 			}
 			offset = 0
 			// Open a new WAL file
+			verifhook.FS("create", walPath, "")
 			if f, err = os.OpenFile(walPath, os.O_CREATE|os.O_WRONLY|os.O_TRUNC, 0644); err != nil {
 				return err
 			}
@@ -1724,6 +1738,7 @@ func WriteTXIDFile(outputPath string, txid ltx.TXID) error {
 	txidPath := TXIDPath(outputPath)
 	tmpPath := txidPath + ".tmp"
 
+	verifhook.FS("create", tmpPath, "")
 	f, err := os.Create(tmpPath)
 	if err != nil {
 		return fmt.Errorf("create txid temp file: %w", err)
@@ -1735,6 +1750,7 @@ func WriteTXIDFile(outputPath string, txid ltx.TXID) error {
 		return fmt.Errorf("write txid: %w", err)
 	}
 
+	verifhook.FS("fsync", tmpPath, "")
 	if err := f.Sync(); err != nil {
 		return fmt.Errorf("sync txid file: %w", err)
 	}
@@ -1743,6 +1759,7 @@ func WriteTXIDFile(outputPath string, txid ltx.TXID) error {
 		return fmt.Errorf("close txid file: %w", err)
 	}
 
+	verifhook.FS("rename", tmpPath, txidPath)
 	if err := os.Rename(tmpPath, txidPath); err != nil {
 		return fmt.Errorf("rename txid file: %w", err)
 	}
